@@ -66,6 +66,40 @@ impl Guarded {
     }
 }
 
+const MAP_FIXED_NOREPLACE: c_int = 0x100000;
+
+impl Guarded {
+    /// External memory at a fixed absolute address: `[PROT_NONE page][RW pages][PROT_NONE page]`, `data` placed so
+    /// that it starts at `base` and ends flush with the trailing guard page (`base + data.len()` must be a multiple
+    /// of the page size). `None` when the address range is not free.
+    pub fn fixed(base: usize, data: &[u8]) -> Option<Self> {
+        let end = base.checked_add(data.len())?;
+        if end % PAGE != 0 {
+            return None;
+        }
+        let data_pages = (data.len() + PAGE - 1) / PAGE + if data.is_empty() { 1 } else { 0 };
+        let start = end.checked_sub((data_pages + 1) * PAGE)?;
+        let map_len = (data_pages + 2) * PAGE;
+        let map = unsafe {
+            mmap(start as *mut c_void, map_len, PROT_RW, MAP_PRIVATE_ANON | MAP_FIXED_NOREPLACE, -1, 0)
+        } as *mut u8;
+        if map.is_null() || map as isize == -1 {
+            return None;
+        }
+        if map as usize != start {
+            unsafe { munmap(map as *mut c_void, map_len) };
+            return None;
+        }
+        unsafe {
+            core::ptr::write_bytes(map.add(PAGE), FILL, data_pages * PAGE);
+            assert_eq!(mprotect(map as *mut c_void, PAGE, PROT_NONE), 0);
+            assert_eq!(mprotect(map.add(PAGE + data_pages * PAGE) as *mut c_void, PAGE, PROT_NONE), 0);
+            core::ptr::copy_nonoverlapping(data.as_ptr(), base as *mut u8, data.len());
+        }
+        Some(Guarded { map, map_len, ptr: base as *mut u8, len: data.len() })
+    }
+}
+
 impl Drop for Guarded {
     fn drop(&mut self) {
         if !self.map.is_null() {
